@@ -248,7 +248,9 @@ func (o *Orch) runOne(world string, sc json.RawMessage, uid int, events bool) (o
 		return &simkit.Outcome{Harness: "start worker: " + err.Error()}, false, false, ""
 	}
 	defer w.Close()
-	return w.Do(world, sc, events, drv.Timeout)
+	// solo runs (confirmation, shrinking, replay) get twice the budget of batch runs, so that a
+	// machine that was merely busy during the batch does not turn into a hang verdict
+	return w.Do(world, sc, events, 2*drv.Timeout)
 }
 
 func scenUID(sc json.RawMessage) int {
